@@ -16,7 +16,7 @@ CHECKS = {
          "property predicate as invariant; every behaviour is replayed into the real library and the recorded "
          "document is validated by the trace specification against the independent reference (RefStrokes, "
          "TextsExact); random grids up to 14x8 go the same way.",
-         "TLA+ model checking + TLC replay into the code + trace validation of recorded documents"),
+         "TLA+ model checking + TLC replay into the code + trace validation of recorded documents + stage-level trace validation (PipelineTrace)"),
  "C06": ("model_checking", "4.C06",
          "shift-commutation is an invariant of the pipeline model on all small grids (TLC); for the code, pairs "
          "(base, shifted) over the full vocabulary at offsets up to 400x200 are recorded and TLC checks the input "
@@ -36,10 +36,13 @@ CHECKS = {
          "the inputs and SameDoc (elements, canvas, style text).",
          "TLA+ model checking of the row splitter + relational trace validation"),
  "C12": ("model_checking", "4.C12",
-         "RefCanvas and Contained are invariants of the pipeline model on all small grids (TLC) and are evaluated "
-         "by the trace specification on every recorded document of a corpus with wide characters, quoted text at "
-         "the edges, legends and several scales. One recorded finding (quoted text invisible to the canvas).",
-         "TLA+ model checking of the final-state invariant + trace validation of recorded documents"),
+         "RefCanvas and Contained are invariants of the pipeline model on all small grids, on the neighbourhood "
+         "family MC_Nbhd (every modelled character with at most K neighbours: one test per transition of the glyph "
+         "tables) and on the whole-conversion model MC_Full (legend grammar, rows, unquote, quoted texts, canvas); all "
+         "behaviours are replayed (elements, canvas and rules compared) and stage-validated; the predicates are "
+         "evaluated by the trace specification on every recorded document of a corpus with wide characters, quoted "
+         "text at the edges, legends and several scales. One recorded finding (quoted text invisible to the canvas).",
+         "TLA+ model checking (pipeline, neighbourhood family, whole-conversion model) + TLC replay + trace validation"),
  "C09": ("model_checking", "4.C09",
          "merge fixpoint and NoCollinearTouching are invariants of the pipeline model on all small grids (TLC); "
          "for the code the run family (all line characters, lengths to 400) is checked against RunOracle and every "
@@ -70,17 +73,18 @@ CHECKS = {
          "box and that the document is exactly the expected rect (position, size, radius, class) plus interior "
          "texts; soundness: RectSound is an invariant of the pipeline model on all small grids (TLC, replayed) and "
          "is evaluated on every rect of the box-mutation family, random grids and the mixed corpus.",
-         "TLA+ model checking + TLC replay + trace validation (box oracle, RectSound)"),
+         "TLA+ model checking + TLC replay + trace validation (box oracle, RectSound) + stage-level trace validation"),
  "C13": ("model_checking", "4.C13",
          "TLC checks for all 22 catalogue entries x offsets that the circle given by the documented parameters "
          "satisfies the independent CircleOracle, each behaviour is replayed; the code's circles for 22 drawings x "
          "many placements (alone / with other content) are validated against CircleOracle by the trace spec.",
          "TLA+ model checking of the catalogue stage + TLC replay + trace validation (circle oracle)"),
  "C14": ("model_checking", "4.C14",
-         "the arrow, bullet and rounded-corner families are generated, converted and validated by the trace "
-         "specification: TLC checks the input is the claimed drawing and evaluates ArrowOracle / BulletOracle / "
-         "CornerOracle in integer geometry on the recorded document.",
-         "trace validation (TLC) of parametric families against integer-geometry oracles"),
+         "MC_Arrow and MC_Bullet run the arrow and bullet families through the glyph/merge model (polygons, circle "
+         "fragments merged into marker lines) with the oracles as invariants and replay every behaviour; the arrow, "
+         "bullet (horizontal and vertical) and rounded-corner families are converted and TLC checks the input is the "
+         "claimed drawing and evaluates ArrowOracle / BulletOracle / CornerOracle in integer geometry.",
+         "TLA+ model checking of the arrow/bullet glyph rules + TLC replay + trace validation against integer-geometry oracles"),
  "C16": ("model_checking", "4.C16",
          "TLC checks the enclosure model (deepest-first forest, scale-invariant fit) for all scenes of the family; "
          "legend and tag families are converted and TLC checks the input relation and RefLegend / RefTagClasses on "
